@@ -29,6 +29,8 @@ FK = gen.FACTOR_KINDS
 def _pool(tier):
     L = 5 if tier == "quick" else 8
     base = [(1, 1, L), (2, 2, L), (3, 1, L), (2, 3, L), (3, 2, L), (4, 1, L), (2, 1, L), (4, 2, L)]
+    if tier == "thorough":
+        base += [(5, 2, L), (6, 1, L), (3, 4, L), (2, 5, L)]
     return base
 
 
